@@ -289,6 +289,13 @@ func (ds *describer) d(v ssa.Value, depth int) string {
 	case *ssa.UnOp:
 		switch x.Op {
 		case token.MUL:
+			// a package-level variable that is set once, by a constant initialiser, reads as that
+			// constant (dateFormat = telemetry.DateOnly)
+			if g, ok := x.X.(*ssa.Global); ok {
+				if iv, isC := globalSingleInit(g).(*ssa.Const); isC {
+					return ds.d(iv, depth+1)
+				}
+			}
 			// a field that is only ever set when its object is built, read from the object this
 			// function built: the value it was built with
 			if fa, ok := x.X.(*ssa.FieldAddr); ok {
@@ -330,6 +337,29 @@ func (ds *describer) d(v ssa.Value, depth int) string {
 	case *ssa.BinOp:
 		return "(" + ds.d(x.X, depth+1) + " " + x.Op.String() + " " + ds.d(x.Y, depth+1) + ")"
 	case *ssa.Call:
+		// string building has one canonical rendering, the left-nested concatenation, whether it
+		// is written with +, with Sprintf and a format of %s / %g verbs only, or with
+		// strconv.FormatFloat(x, 'g', -1, 64) (which is what %g prints for a float64)
+		if parts, ok := stringParts(x); ok && depth < 10 {
+			out := ""
+			for i, p := range parts {
+				var d string
+				switch {
+				case p.lit != nil:
+					d = fmt.Sprintf("%q", *p.lit)
+				case p.g:
+					d = "fmtg(" + ds.d(p.v, depth+1) + ")"
+				default:
+					d = ds.d(p.v, depth+1)
+				}
+				if i == 0 {
+					out = d
+				} else {
+					out = "(" + out + " + " + d + ")"
+				}
+			}
+			return out
+		}
 		args := make([]string, 0, len(x.Call.Args)+1)
 		if x.Call.IsInvoke() {
 			args = append(args, ds.d(x.Call.Value, depth+1))
@@ -1104,4 +1134,148 @@ func builtFieldValue(a *ssa.Alloc, idx int) ssa.Value {
 		return nil
 	}
 	return val
+}
+
+// sepConstOf: a separator given as a constant string, or as a constant byte/rune (the operand
+// of IndexByte, ContainsRune, WriteByte …): the one-character string.
+func sepConstOf(v ssa.Value) (string, bool) {
+	c, ok := strip(v).(*ssa.Const)
+	if !ok || c.Value == nil {
+		return "", false
+	}
+	if c.Value.Kind() == constant.String {
+		return constant.StringVal(c.Value), true
+	}
+	if b, isB := c.Type().Underlying().(*types.Basic); isB && b.Info()&types.IsInteger != 0 {
+		if n, ok := constant.Int64Val(c.Value); ok && n >= 0 && n < 0x110000 {
+			return string(rune(n)), true
+		}
+	}
+	return "", false
+}
+
+// strPart: one piece of a built string: a literal, a string value, or a float64 printed with %g.
+type strPart struct {
+	lit *string
+	v   ssa.Value
+	g   bool
+}
+
+// stringParts splits a string-building call into its pieces: fmt.Sprintf with a constant format
+// whose verbs are all %s (string operand) or %g (float64 operand), or strconv.FormatFloat(x, 'g', -1, 64).
+func stringParts(cl *ssa.Call) ([]strPart, bool) {
+	switch calleeName(&cl.Call) {
+	case "strconv.FormatFloat":
+		a := cl.Call.Args
+		if len(a) == 4 {
+			f, ok1 := intConst(a[1])
+			pr, ok2 := intConst(a[2])
+			bs, ok3 := intConst(a[3])
+			if ok1 && ok2 && ok3 && f == 'g' && pr == -1 && bs == 64 {
+				return []strPart{{v: a[0], g: true}}, true
+			}
+		}
+		return nil, false
+	case "fmt.Sprintf":
+	default:
+		return nil, false
+	}
+	a := cl.Call.Args
+	if len(a) != 2 {
+		return nil, false
+	}
+	format, ok := constOf(a[0])
+	if !ok {
+		return nil, false
+	}
+	var elems []ssa.Value
+	if sl, isSl := a[1].(*ssa.Slice); isSl {
+		if elems, ok = varargElems(sl); !ok {
+			return nil, false
+		}
+	} else if !isNilConst(a[1]) {
+		return nil, false
+	}
+	var parts []strPart
+	lit := ""
+	flush := func() {
+		if lit != "" {
+			l := lit
+			parts = append(parts, strPart{lit: &l})
+			lit = ""
+		}
+	}
+	k := 0
+	for i := 0; i < len(format); i++ {
+		if format[i] != '%' {
+			lit += string(format[i])
+			continue
+		}
+		if i+1 >= len(format) {
+			return nil, false
+		}
+		i++
+		switch format[i] {
+		case '%':
+			lit += "%"
+		case 's', 'g':
+			if k >= len(elems) {
+				return nil, false
+			}
+			e := elems[k]
+			k++
+			// the operand as it was before it was boxed into the ...any slice
+			if mi, isMI := e.(*ssa.MakeInterface); isMI {
+				e = mi.X
+			}
+			b, isBasic := e.Type().Underlying().(*types.Basic)
+			if !isBasic {
+				return nil, false
+			}
+			if format[i] == 's' && b.Info()&types.IsString != 0 {
+				flush()
+				parts = append(parts, strPart{v: e})
+			} else if format[i] == 'g' && b.Kind() == types.Float64 {
+				flush()
+				parts = append(parts, strPart{v: e, g: true})
+			} else {
+				return nil, false
+			}
+		default:
+			return nil, false
+		}
+	}
+	flush()
+	if k != len(elems) || len(parts) == 0 {
+		return nil, false
+	}
+	return parts, true
+}
+
+// builtStrings: the string-building expressions of fn — Sprintf calls and outermost string
+// concatenations — each rendered canonically by describe (see stringParts).
+func builtStrings(fn *ssa.Function) []ssa.Value {
+	var out []ssa.Value
+	for _, in := range instrsOf(fn) {
+		switch x := in.(type) {
+		case *ssa.Call:
+			if calleeName(&x.Call) == "fmt.Sprintf" {
+				out = append(out, x)
+			}
+		case *ssa.BinOp:
+			if x.Op != token.ADD || !isStringy(x.Type()) {
+				continue
+			}
+			root := true
+			for _, u := range referrers(x) {
+				if b, ok := u.(*ssa.BinOp); ok && b.Op == token.ADD && b.X == ssa.Value(x) {
+					root = false
+				}
+			}
+			if root {
+				out = append(out, x)
+			}
+		}
+	}
+	return out
 }
